@@ -194,6 +194,7 @@ pub fn run_case(lines: &[String], out: &mut String) {
     let mut ws: Option<WebSocket<Mock>> = None;
     let mut pending_mock = Mock::default();
     let mut cfg: Option<Cfg> = None;
+    let mut cfg_changed = false;
 
     macro_rules! sock {
         () => {{
@@ -277,6 +278,18 @@ pub fn run_case(lines: &[String], out: &mut String) {
                             Ok(()) => "ok unit".into(),
                             Err(e) => format!("err {}", show_err(&e)),
                         },
+                        "setcfg" => {
+                            // `WebSocket::set_config`: limits and buffer sizes change on a live connection
+                            let nc = parse_cfg(line).config;
+                            w.set_config(|c| {
+                                c.write_buffer_size = nc.write_buffer_size;
+                                c.max_write_buffer_size = nc.max_write_buffer_size;
+                                c.max_message_size = nc.max_message_size;
+                                c.max_frame_size = nc.max_frame_size;
+                                c.accept_unmasked_frames = nc.accept_unmasked_frames;
+                            });
+                            "ok unit".into()
+                        }
                         "can" => "ok unit".into(),
                         x => panic!("bad op {x}"),
                     }));
@@ -286,7 +299,10 @@ pub fn run_case(lines: &[String], out: &mut String) {
                 let (io, wire) = w.get_mut().take_log();
                 // C06: with finite limits a read may not allocate more than a small multiple of the
                 // limits plus the read buffer (plus what this harness itself logs for the delivered bytes)
-                if body[0] == "read" {
+                if body[0] == "setcfg" {
+                    cfg_changed = true;
+                }
+                if body[0] == "read" && !cfg_changed {
                     if let Some(c) = cfg.as_ref() {
                         if let (Some(mf), Some(mm)) = (c.config.max_frame_size, c.config.max_message_size) {
                             if mf <= (1 << 24) && mm <= (1 << 26) {
